@@ -337,6 +337,8 @@ type c20Conc struct {
 	Clients int `json:"concurrent_clients"`
 	Each    int `json:"requests_each"`
 	MaxKB   int `json:"reply_size_up_to_kb"`
+	Dead    int `json:"further_kdcs_that_refuse,omitempty"` // the realm lists that many more KDCs (1..3 in all); nothing listens there
+	LivePos int `json:"position_of_the_live_kdc,omitempty"`
 }
 
 func c20ReplyFor(req []byte) []byte {
@@ -359,8 +361,11 @@ func c20ReplyFor(req []byte) []byte {
 func TestC20_CONC(t *testing.T) {
 	dir := t.TempDir()
 	runProp(t, "C20_CONC", func(t *rapid.T) c20Conc {
-		return c20Conc{Clients: rapid.IntRange(2, 16).Draw(t, "clients"), Each: rapid.IntRange(10, 120).Draw(t, "each"), MaxKB: 58}
-	}, func(c c20Conc) (bool, []string) { return true, nil }, func(c c20Conc) *Violation {
+		c := c20Conc{Clients: rapid.IntRange(2, 16).Draw(t, "clients"), Each: rapid.IntRange(10, 120).Draw(t, "each"), MaxKB: 58}
+		c.Dead = rapid.IntRange(0, 2).Draw(t, "dead")
+		c.LivePos = rapid.IntRange(0, c.Dead).Draw(t, "livePos")
+		return c
+	}, func(c c20Conc) (bool, []string) { return true, []string{fmt.Sprintf("kdcs=%d", 1+c.Dead)} }, func(c c20Conc) *Violation {
 		k, err := kdc.Start("silent", nil, false)
 		if err != nil {
 			return viol("infra", "cannot start fake KDC: %v", err)
@@ -368,7 +373,16 @@ func TestC20_CONC(t *testing.T) {
 		defer k.Close()
 		k.ReplyFor = c20ReplyFor
 		cf := filepath.Join(dir, fmt.Sprintf("krb5-conc-%d.conf", time.Now().UnixNano()))
-		os.WriteFile(cf, []byte("[libdefaults]\n default_realm = EXAMPLE.COM\n dns_lookup_kdc = false\n[realms]\n EXAMPLE.COM = {\n  kdc = "+k.Addr()+"\n }\n"), 0o600)
+		var kdcLines string
+		for i, d := 0, 0; i <= c.Dead; i++ {
+			if i == c.LivePos {
+				kdcLines += "  kdc = " + k.Addr() + "\n"
+			} else {
+				d++
+				kdcLines += fmt.Sprintf("  kdc = 127.0.0.%d:1\n", 1+d) // a privileged port of another loopback address: refused, and never our own source port
+			}
+		}
+		os.WriteFile(cf, []byte("[libdefaults]\n default_realm = EXAMPLE.COM\n dns_lookup_kdc = false\n[realms]\n EXAMPLE.COM = {\n"+kdcLines+" }\n"), 0o600)
 		defer os.Remove(cf)
 		proxy := kdcproxy.InitKdcProxy(cf)
 		ts := httptest.NewServer(http.HandlerFunc(proxy.Handler))
@@ -393,7 +407,7 @@ func TestC20_CONC(t *testing.T) {
 					want := c20ReplyFor(payload)
 					got, ok := kdc.DecodeProxyMessage(rb)
 					if resp.StatusCode != 200 || !ok || len(got) < 4 || !bytes.Equal(got[4:], want) || binary.BigEndian.Uint32(got) != uint32(len(want)) {
-						errs <- fmt.Sprintf("client %d request %d: status %d, the KDC's reply to this message has %d bytes, the relayed one %d (prefix %x): not the reply to this client's message", w, i, resp.StatusCode, len(want), len(got)-4, trunc64b(got)[:4])
+						errs <- fmt.Sprintf("client %d request %d: status %d, the KDC's reply to this message has %d bytes, the relayed one %d (prefix %x): not the reply to this client's message", w, i, resp.StatusCode, len(want), len(got)-4, got[:min(4, len(got))])
 						return
 					}
 				}
@@ -402,7 +416,7 @@ func TestC20_CONC(t *testing.T) {
 		wg.Wait()
 		select {
 		case e := <-errs:
-			return viol("c20/reply-of-another-request", "%s (%d clients at once, replies over UDP)", e, c.Clients)
+			return viol("c20/reply-of-another-request", "%s (%d clients at once, replies over UDP, %d KDCs listed for the realm of which one answers)", e, c.Clients, 1+c.Dead)
 		default:
 		}
 		return nil
